@@ -2,30 +2,43 @@ import TsV.Lemmas.C15
 /-!
 # C15 — documentation text is carried only inside comments of the generated code
 
-Every back end prints the doc strings of a type, field, variant, struct-variant field or alias
-through one comment renderer (`TypeScript.comments`, `Kotlin.comments`, `Swift.comments`,
-`Scala.comments`, `Go.comments`, `Python.docstring`, `Python.hashComments`).  `Lemmas/C15_Spec.lean`
-gives the trusted side: the comment lexers of the six languages, the renderers with the origin of
-every character (`renderT`), `contained` (the lexer, started in `code`, is in a comment state before
-and after every character that stems from the doc text, and is back in `code` at the end of the
-block) and the decidable predicate `Bad` on one doc string.
+The parser turns the `#[doc = ".."]` strings of an item (`///`, `/** */` and `#[doc]` all arrive in that
+form) into comment entries: `Parser.parseCommentAttrs` = `entries` ∘ `Parser.docStrings` — each string
+trimmed, split at `\n`, `\r\n` and lone `\r`, every line trimmed.  Every back end prints the entries of a
+type, field, variant, struct-variant field or alias through one comment renderer (`TypeScript.comments`,
+`Kotlin.comments`, `Swift.comments`, `Scala.comments`, `Go.comments`, `Python.docstring`,
+`Python.hashComments`); TypeScript writes `*/` as `*\/`, the Python docstring writer `"""` as `\"\"\"`.
+`Lemmas/C15_Spec.lean` gives the trusted side: the comment lexers of the six languages, the renderers
+with the origin of every character (`renderT`), `contained` (the lexer, started in `code`, is in a comment
+state before and after every character that stems from the doc text, and is back in `code` at the end of
+the block), the decidable predicate `Bad` on one string handed to a renderer, and `KnownScalaSub`.
 
-* `C15_full`: every block of doc strings is contained, for every renderer.
-* The pinned tree does not satisfy it (`C15_not_full`, one witness per renderer): a doc string with a
-  line break leaves a `///`, `//` or `#` comment; `*/` ends a TypeScript block comment; an unescaped
-  `"""` ends a Python docstring.
-* `C15_iff`: the exact characterisation — a block is contained **iff** none of its strings is `Bad`;
-  `C15_partial` / `C15_converse` are its two directions.
+* `C15_full`: for every list of `#[doc]` strings as the parser receives them, for every renderer, at every
+  indentation, the rendered block is contained.
+* Six of the seven renderers have the property outright (`C15_all_but_scala`; TypeScript and the Python
+  docstring even for arbitrary strings handed to the renderer: `C15_typescript`, `C15_pyDoc`).
+* One residual class (`KnownScalaSub`): Scala's scanner also ends a `//` comment at U+001A, at which the
+  parser does not split.  `C15_not_full` is the witness, `C15_exact` the exact characterisation
+  (`C15_partial` / `C15_converse` its two directions), `C15_no_sub` the reading on the raw doc strings.
+* `C15_iff` is the exact characterisation at renderer level (arbitrary strings handed to a renderer): a
+  block is contained **iff** none of its strings is `Bad`; `C15_entries_single_line` (no entry produced by
+  the parser contains `\n` or `\r`) is what discharges `Bad` for the line-comment renderers.
 -/
 namespace TsV.C15
 open TsV TsV.Lang
 
-/-- the property at full strength: whatever the doc strings contain, in all seven renderers of the six
-back ends, at every indentation -/
+/-- the property at full strength: whatever the `#[doc]` strings of an item contain, the block that the
+parser's entries are rendered to is contained — in all seven renderers of the six back ends, at every
+indentation -/
 def C15_full : Prop :=
-  ∀ (sty : Style) (U : UnicodeOps) (indent : Nat) (docs : List Str), contained sty U indent docs = true
+  ∀ (sty : Style) (U : UnicodeOps) (indent : Nat) (docs : List Str),
+    contained sty U indent (entries U docs) = true
 
-/-! ## the tagged renderers are the model's renderers -/
+/-! ## the objects of the statement are the model's -/
+
+/-- the comment entries of an item are `entries` of the string values of its `doc` attributes -/
+theorem C15_parser (E : Ext) (attrs : List Syn.Attr) :
+    Parser.parseCommentAttrs E attrs = entries E.U (Parser.docStrings attrs) := rfl
 
 /-- forgetting the origin tags gives byte for byte the text the back-end model writes (which the
 correspondence compares with the real generator) -/
@@ -33,102 +46,162 @@ theorem C15_render (sty : Style) (U : UnicodeOps) (indent : Nat) (docs : List St
     erase (renderT sty U indent docs) = render sty U indent docs :=
   erase_renderT sty U indent docs
 
-/-- … and the characters tagged "doc text" are exactly the doc strings as the printer writes them, in
-order (only Swift changes them: trailing white space is stripped) -/
+/-- … and the characters tagged "doc text" are exactly the entries as the printer writes them, in order
+(Swift strips trailing white space; TypeScript writes `*/` as `*\/`, the Python docstring writer `"""`
+as `\"\"\"` — the inserted backslashes count as doc text) -/
 theorem C15_tags (sty : Style) (U : UnicodeOps) (indent : Nat) (docs : List Str) :
     docChars (renderT sty U indent docs) = docs.flatMap (written sty U) :=
   docChars_renderT sty U indent docs
 
-/-! ## the pinned tree does not have the property: one witness per renderer -/
+/-- the escaping functions of the model are Rust's `str::replace` -/
+theorem C15_escape_is_replace (c : Str) :
+    TypeScript.escapeDoc c = Str.replaceSub c s%"*/" s%"*\\/" ∧
+    Python.escapeDoc c = Str.replaceSub c s%"\"\"\"" s%"\\\"\\\"\\\"" :=
+  ⟨ts_escape_eq_replace c, py_escape_eq_replace c⟩
 
-/-- `/** a */ b */`: the text after `*/` is TypeScript code -/
-theorem witness_typescript : contained .typescript UnicodeOps.ascii 0 [s%"a */ b"] = false := by decide
-/-- `#[doc = "a\nb"]` / a block doc comment: the second line is Kotlin code -/
-theorem witness_kotlin : contained .kotlin UnicodeOps.ascii 0 [s%"a\nb"] = false := by decide
-theorem witness_swift : contained .swift UnicodeOps.ascii 0 [s%"a\nb"] = false := by decide
-theorem witness_scala : contained .scala UnicodeOps.ascii 0 [s%"a\nb"] = false := by decide
-theorem witness_go : contained .go UnicodeOps.ascii 0 [s%"a\nb"] = false := by decide
-/-- `a """ b` ends the docstring; the printer's closing `"""` then opens a string that is never closed -/
-theorem witness_pyDoc : contained .pyDoc UnicodeOps.ascii 1 [s%"a \"\"\" b"] = false := by decide
-theorem witness_pyHash : contained .pyHash UnicodeOps.ascii 0 [s%"a\nb"] = false := by decide
+/-- splitting loses nothing but the line breaks -/
+theorem C15_lines_keep_text (s : Str) :
+    (Parser.docLines s).flatten = s.filter fun c => !(c = '\n' || c = '\r') :=
+  docLines_flatten s
 
-theorem C15_not_full : ¬ C15_full := fun h => by
-  have := h .typescript UnicodeOps.ascii 0 [s%"a */ b"]
-  rw [witness_typescript] at this
-  exact Bool.noConfusion this
+/-! ## renderer level: exact characterisation for arbitrary strings handed to a renderer -/
 
-/-- no renderer has the property -/
-theorem C15_fails_everywhere (sty : Style) :
-    ∃ U indent docs, contained sty U indent docs = false := by
-  cases sty
-  · exact ⟨_, _, _, witness_typescript⟩
-  · exact ⟨_, _, _, witness_kotlin⟩
-  · exact ⟨_, _, _, witness_swift⟩
-  · exact ⟨_, _, _, witness_scala⟩
-  · exact ⟨_, _, _, witness_go⟩
-  · exact ⟨_, _, _, witness_pyDoc⟩
-  · exact ⟨_, _, _, witness_pyHash⟩
-
-/-! ## exact characterisation -/
-
-/-- a block of doc strings is carried inside the comment **iff** none of the strings is `Bad` -/
-theorem C15_iff (sty : Style) (U : UnicodeOps) (indent : Nat) (docs : List Str) :
-    contained sty U indent docs = true ↔ ∀ c ∈ docs, Bad sty U c = false := by
+/-- a block of strings is carried inside the comment **iff** none of the strings is `Bad` -/
+theorem C15_iff (sty : Style) (U : UnicodeOps) (indent : Nat) (cs : List Str) :
+    contained sty U indent cs = true ↔ ∀ c ∈ cs, Bad sty U c = false := by
   rw [contained_eq]; simp
 
-/-- outside the known classes the property holds -/
-theorem C15_partial (sty : Style) (U : UnicodeOps) (indent : Nat) (docs : List Str)
-    (h : ∀ c ∈ docs, Bad sty U c = false) : contained sty U indent docs = true :=
-  (C15_iff sty U indent docs).2 h
+theorem C15_renderer_partial (sty : Style) (U : UnicodeOps) (indent : Nat) (cs : List Str)
+    (h : ∀ c ∈ cs, Bad sty U c = false) : contained sty U indent cs = true :=
+  (C15_iff sty U indent cs).2 h
 
-/-- … and inside them it fails: one `Bad` string anywhere in the block breaks it -/
-theorem C15_converse (sty : Style) (U : UnicodeOps) (indent : Nat) (docs : List Str) (c : Str)
-    (hc : c ∈ docs) (hb : Bad sty U c = true) : contained sty U indent docs = false := by
-  cases h : contained sty U indent docs with
+/-- one `Bad` string anywhere in the block breaks it -/
+theorem C15_renderer_converse (sty : Style) (U : UnicodeOps) (indent : Nat) (cs : List Str) (c : Str)
+    (hc : c ∈ cs) (hb : Bad sty U c = true) : contained sty U indent cs = false := by
+  cases h : contained sty U indent cs with
   | false => rfl
-  | true => have := (C15_iff sty U indent docs).1 h c hc; rw [hb] at this; exact Bool.noConfusion this
+  | true => have := (C15_iff sty U indent cs).1 h c hc; rw [hb] at this; exact Bool.noConfusion this
 
-/-- the hypotheses of `C15_partial` are met by text that is dangerous for the *other* languages:
-`*/`, `/*`, `//`, `#`, back-ticks, quotes and a trailing backslash are harmless in `///` lines -/
-example : ∀ c ∈ [s%"a */ b /* c // d", s%"# `x` \"\"\" ''' \\"], Bad .kotlin UnicodeOps.ascii c = false := by
-  decide
-/-- line breaks, `//`, a trailing `*` and a leading `/` are harmless in `/** */` -/
-example : ∀ c ∈ [s%"a\nb // c *", s%"/ \"\"\" \\"], Bad .typescript UnicodeOps.ascii c = false := by decide
-/-- a trailing `"`, a trailing `\`, `*/`, line breaks and an *escaped* `\"""` are harmless in a docstring -/
-example : ∀ c ∈ [s%"say \"hi\"", s%"a\\", s%"x */\ny", s%"\\\"\"\""], Bad .pyDoc UnicodeOps.ascii c = false := by
-  decide
-example : contained .pyDoc UnicodeOps.ascii 1 [s%"say \"hi\"", s%"a\\", s%"x */\ny", s%"\\\"\"\""] = true := by
-  decide
-/-- … and of `C15_converse`: the `Bad` string need not be the first one -/
-example : s%"x\ny" ∈ [s%"fine", s%"x\ny"] ∧ Bad .go UnicodeOps.ascii s%"x\ny" = true := by decide
+/-- TypeScript: no string is `Bad` — `*/` never reaches the output, line breaks are harmless in `/** */` -/
+theorem Bad_typescript (U : UnicodeOps) (c : Str) : Bad .typescript U c = false := Bad_typescript_never U c
 
-/-! ## reading `Bad` -/
+/-- Python docstrings: no string is `Bad` — the written text has no unescaped `"""`, whatever
+backslashes and quotes surround the escaped ones -/
+theorem Bad_pyDoc (U : UnicodeOps) (c : Str) : Bad .pyDoc U c = false := Bad_pyDoc_never U c
 
-/-- the line-comment back ends: exactly the strings with a character that ends a line comment -/
+/-- the line-comment renderers: exactly the strings with a character that ends a line comment -/
 theorem Bad_line_comment (U : UnicodeOps) (c : Str) :
     (Bad .kotlin U c = true ↔ ∃ x ∈ c, x = '\n' ∨ x = '\r') ∧
     (Bad .go U c = true ↔ '\n' ∈ c) ∧
     (Bad .pyHash U c = true ↔ ∃ x ∈ c, x = '\n' ∨ x = '\r') := by
   simp [Bad, kotlinSyntax, goSyntax, pyEol]
 
-/-- TypeScript: exactly the strings containing `*/` -/
-theorem Bad_typescript (U : UnicodeOps) (c : Str) :
-    Bad .typescript U c = Str.containsSub c s%"*/" := rfl
+/-- the TypeScript renderer and the Python docstring renderer are safe for **every** list of strings -/
+theorem C15_typescript (U : UnicodeOps) (indent : Nat) (cs : List Str) :
+    contained .typescript U indent cs = true :=
+  C15_renderer_partial _ U indent cs fun c _ => Bad_typescript U c
 
-/-- Python docstrings: a string without `"""` is never bad … -/
-theorem Bad_pyDoc_needs_triple_quote (U : UnicodeOps) (c : Str)
-    (h : Str.containsSub c s%"\"\"\"" = false) : Bad .pyDoc U c = false := by
-  cases hb : Bad .pyDoc U c with
-  | false => rfl
-  | true => rw [unescaped_imp_contains c false hb] at h; exact Bool.noConfusion h
+theorem C15_pyDoc (U : UnicodeOps) (indent : Nat) (cs : List Str) :
+    contained .pyDoc U indent cs = true :=
+  C15_renderer_partial _ U indent cs fun c _ => Bad_pyDoc U c
 
-/-- … and without backslashes `Bad` is exactly "contains `\"\"\"`" -/
-theorem Bad_pyDoc_no_backslash (U : UnicodeOps) (c : Str) (h : ∀ x ∈ c, x ≠ '\\') :
-    Bad .pyDoc U c = Str.containsSub c s%"\"\"\"" :=
-  unescaped_eq_contains c h
+/-- the witnesses of the repaired defects, and text that would be dangerous without the escaping -/
+example : contained .typescript UnicodeOps.ascii 0 [s%"a */ b"] = true := by decide
+example : contained .typescript UnicodeOps.ascii 1 [s%"**/", s%"*/*/ /* x", s%"a\nb // c *", s%"/"] = true := by decide
+example : render .typescript UnicodeOps.ascii 0 [s%"a */ b"] = s%"/** a *\\/ b */\n" := by decide
+example : contained .pyDoc UnicodeOps.ascii 1 [s%"a \"\"\" b"] = true := by decide
+example : contained .pyDoc UnicodeOps.ascii 1
+    [s%"\"\"\"\"\"", s%"\\\"\"\"", s%"\\\\\"\"\"\"", s%"say \"hi\"", s%"a\\", s%"x */\ny", s%"\"\"\"\\"] = true := by
+  decide
+example : render .pyDoc UnicodeOps.ascii 0 [s%"a \"\"\" b"] = s%"\"\"\"\na \\\"\\\"\\\" b\n\"\"\"\n" := by decide
 
-example : Str.containsSub s%"ends with a quote\"" s%"\"\"\"" = false := by decide
-example : ∀ x ∈ s%"a \"\"\" b", x ≠ '\\' := by decide
+/-- the line-comment renderers themselves still rely on single-line input: handed a string with a line
+break they are not contained — which is why the statement is about the parser's entries -/
+theorem renderer_needs_single_lines :
+    contained .kotlin UnicodeOps.ascii 0 [s%"a\nb"] = false ∧
+    contained .swift UnicodeOps.ascii 0 [s%"a\nb"] = false ∧
+    contained .scala UnicodeOps.ascii 0 [s%"a\nb"] = false ∧
+    contained .go UnicodeOps.ascii 0 [s%"a\nb"] = false ∧
+    contained .pyHash UnicodeOps.ascii 0 [s%"a\nb"] = false := by decide
+
+/-- the hypotheses of `C15_renderer_partial` are met by text that is dangerous for the *other* languages:
+`*/`, `/*`, `//`, `#`, back-ticks, quotes and a trailing backslash are harmless in `///` lines -/
+example : ∀ c ∈ [s%"a */ b /* c // d", s%"# `x` \"\"\" ''' \\"], Bad .kotlin UnicodeOps.ascii c = false := by
+  decide
+/-- … and of `C15_renderer_converse`: the `Bad` string need not be the first one -/
+example : s%"x\ny" ∈ [s%"fine", s%"x\ny"] ∧ Bad .go UnicodeOps.ascii s%"x\ny" = true := by decide
+
+/-! ## parser level: the statement of the property -/
+
+/-- no entry produced by the parser contains a line break -/
+theorem C15_entries_single_line (U : UnicodeOps) (docs : List Str) :
+    ∀ e ∈ entries U docs, ∀ x ∈ e, x ≠ '\n' ∧ x ≠ '\r' := by
+  intro e he x hx
+  have := entries_no_break U docs e he
+  simp only [List.any_eq_false] at this
+  simpa [isBreak] using this x hx
+
+/-- … so on the parser's entries `Bad` is false except for U+001A under Scala -/
+theorem C15_entries_Bad (sty : Style) (U : UnicodeOps) (docs : List Str) (e : Str) (he : e ∈ entries U docs) :
+    Bad sty U e = (sty == .scala && e.any isSub) :=
+  Bad_of_no_break sty U e (entries_no_break U docs e he)
+
+/-- exact characterisation: the block is contained **iff** we are not in the residual class -/
+theorem C15_exact (sty : Style) (U : UnicodeOps) (indent : Nat) (docs : List Str) :
+    contained sty U indent (entries U docs) = true ↔ KnownScalaSub sty U docs = false := by
+  rw [contained_entries]; simp
+
+/-- outside the residual class the property holds -/
+theorem C15_partial (sty : Style) (U : UnicodeOps) (indent : Nat) (docs : List Str)
+    (h : KnownScalaSub sty U docs = false) : contained sty U indent (entries U docs) = true :=
+  (C15_exact sty U indent docs).2 h
+
+/-- … and inside it, it fails -/
+theorem C15_converse (sty : Style) (U : UnicodeOps) (indent : Nat) (docs : List Str)
+    (h : KnownScalaSub sty U docs = true) : contained sty U indent (entries U docs) = false := by
+  rw [contained_entries, h]; rfl
+
+/-- TypeScript, Kotlin, Swift, Go and both Python renderers have the property at full strength -/
+theorem C15_all_but_scala (sty : Style) (hs : sty ≠ .scala) (U : UnicodeOps) (indent : Nat) (docs : List Str) :
+    contained sty U indent (entries U docs) = true :=
+  C15_partial sty U indent docs (by cases sty <;> first | exact absurd rfl hs | rfl)
+
+/-- Scala has it for all doc strings without U+001A -/
+theorem C15_no_sub (sty : Style) (U : UnicodeOps) (indent : Nat) (docs : List Str)
+    (h : ∀ d ∈ docs, ∀ x ∈ d, x.toNat ≠ 0x1A) : contained sty U indent (entries U docs) = true := by
+  apply C15_partial
+  have h' : ∀ d ∈ docs, d.any isSub = false := fun d hd => by
+    simp only [List.any_eq_false]
+    intro x hx; simpa [isSub] using h d hd x hx
+  have := entries_any U docs h'
+  unfold KnownScalaSub
+  rw [Bool.and_eq_false_iff]; right
+  simp only [List.any_eq_false]
+  intro e he; simp [this e he]
+
+/-- the residual class is not empty: a doc string with U+001A in the middle, rendered by Scala -/
+theorem witness_scala_sub : contained .scala UnicodeOps.ascii 0 (entries UnicodeOps.ascii [s%"a\x1ab"]) = false := by
+  decide
+
+theorem C15_not_full : ¬ C15_full := fun h => by
+  have := h .scala UnicodeOps.ascii 0 [s%"a\x1ab"]
+  rw [witness_scala_sub] at this
+  exact Bool.noConfusion this
+
+/-- the hypotheses of `C15_partial` / `C15_no_sub` are met by the witnesses of the three repaired defects
+and by everything else the property lists -/
+example : ∀ sty, KnownScalaSub sty UnicodeOps.ascii
+    [s%"a\nb", s%" x\r\ny\rz ", s%"a */ b", s%"a \"\"\" b", s%"''' \\ # ` // /*"] = false := by
+  intro sty; cases sty <;> decide
+example : ∀ d ∈ [s%"a\nb", s%"a */ b", s%"a \"\"\" b"], ∀ x ∈ d, x.toNat ≠ 0x1A := by decide
+/-- what the parser makes of them -/
+example : entries UnicodeOps.ascii [s%" a\nb ", s%" x\r\n  y\rz ", s%"", s%"p\n\nq"]
+    = [s%"a", s%"b", s%"x", s%"y", s%"z", s%"", s%"p", s%"", s%"q"] := by decide
+example : contained .kotlin UnicodeOps.ascii 0 (entries UnicodeOps.ascii [s%"a\nb"]) = true := by decide
+example : render .kotlin UnicodeOps.ascii 0 (entries UnicodeOps.ascii [s%"a\nb"]) = s%"/// a\n/// b\n" := by decide
+example : contained .pyHash UnicodeOps.ascii 0 (entries UnicodeOps.ascii [s%"a\r\nb"]) = true := by decide
+/-- … and of `C15_converse` -/
+example : KnownScalaSub .scala UnicodeOps.ascii [s%"fine", s%"a\x1ab"] = true := by decide
 
 /-! ## a contained block is invisible to the lexer -/
 
